@@ -48,6 +48,18 @@ fn special_receivers() -> Vec<(String, Box<dyn Fn() -> Envelope>)> {
         let m = key.encrypt(b"content".to_vec(), Some(b"not a digest".to_vec()), None::<bc_components::Nonce>);
         match Envelope::try_from(m) { Ok(bad) => base.add_assertion("p", bad), Err(_) => base.clone() }
     }))); }
+    // encrypted / compressed elements whose content is not a well-formed envelope, bare and carrying an assertion
+    for (name, payload) in super::c08::malformed_payloads().into_iter().take(3) {
+        { let (key, payload) = (key.clone(), payload.clone()); out.push((format!("encrypted element holding: {}", name), Box::new(move || {
+            let m = key.encrypt_with_digest(payload.clone(), Digest::from_image(&payload), Some(bc_components::Nonce::from_data_ref([7u8; 12]).unwrap()));
+            Envelope::try_from(m).unwrap().add_assertion("p", "o")
+        }))); }
+        { let payload = payload.clone(); out.push((format!("compressed element holding: {}", name), Box::new(move || {
+            let c = bc_components::Compressed::from_uncompressed_data(payload.clone(), Some(Digest::from_image(&payload)));
+            let x = Envelope::try_from(c).unwrap();
+            if payload.len() % 2 == 0 { x } else { x.add_assertion("p", "o") }
+        }))); }
+    }
     { let (base, key, sk, pk, kv) = (base.clone(), key.clone(), sk.clone(), pk.clone(), kv_cur.clone()); let _ = (&base, &key, &sk, &pk, &kv); out.push(("signed + salted signature".into(), Box::new(move || base.add_signature(&sk).add_assertion_salted("p", "o", true)))); }
     { let (base, key, sk, pk, kv) = (base.clone(), key.clone(), sk.clone(), pk.clone(), kv_cur.clone()); let _ = (&base, &key, &sk, &pk, &kv); out.push(("signed, signature assertion decorated".into(), Box::new(move || { let s = base.add_signature(&sk); let a = s.assertions()[0].clone(); s.remove_assertion(a.clone()).add_assertion_envelope(a.add_assertion("k", "v")).unwrap() }))); }
     { let (base, key, sk, pk, kv) = (base.clone(), key.clone(), sk.clone(), pk.clone(), kv_cur.clone()); let _ = (&base, &key, &sk, &pk, &kv); out.push(("recipient, decorated".into(), Box::new(move || { let x = base.encrypt_subject(&key).unwrap().add_recipient(&pk, &key); let a = x.assertions()[0].clone(); x.remove_assertion(a.clone()).add_assertion_envelope(a.add_assertion("k", "v")).unwrap() }))); }
@@ -101,7 +113,7 @@ fn run_op(k: usize, e: &Envelope, arg: &Envelope) -> &'static str {
         22 => o!("replace_assertion", { let _ = e.replace_assertion(arg.clone(), Envelope::new_assertion("n", "v")).is_ok(); let _ = e.replace_assertion(Envelope::new_assertion("n", "v"), arg.clone()).is_ok(); }),
         23 => o!("replace_subject(arg)", e.replace_subject(arg.clone())),
         24 => o!("wrap/unwrap", { let _ = e.wrap_envelope().unwrap_envelope().is_ok(); let _ = e.unwrap_envelope().is_ok(); }),
-        25 => o!("add_salt*", { let _ = e.add_salt(); let _ = e.add_salt_with_len(0).is_ok(); let _ = e.add_salt_with_len(7).is_ok(); let _ = e.add_salt_with_len(8).is_ok(); let _ = e.add_salt_in_range(0..=3).is_ok(); let _ = e.add_salt_in_range(8..=8).is_ok(); let _ = e.add_salt_in_range(20..=10).is_ok(); }),
+        25 => o!("add_salt*", { let _ = e.add_salt(); let _ = e.add_salt_with_len(0).is_ok(); let _ = e.add_salt_with_len(7).is_ok(); let _ = e.add_salt_with_len(8).is_ok(); let _ = e.add_salt_in_range(0..=3).is_ok(); let _ = e.add_salt_in_range(8..=8).is_ok(); let _ = e.add_salt_in_range(20..=10).is_ok(); let mut g = super::c04::seeded_rng(25); let _ = e.add_salt_in_range_using(&(20..=10), &mut g).is_ok(); let _ = e.add_salt_in_range_using(&(usize::MAX..=8), &mut g).is_ok(); let _ = e.add_salt_with_len_using(0, &mut g).is_ok(); let _ = e.add_salt_with_len_using(8, &mut g).is_ok(); let _ = e.add_salt_using(&mut g); }),
         26 => o!("add_type/types", { let x = e.add_type("T"); let _ = (x.types(), x.get_type().is_ok(), x.has_type(&known_values::SEED_TYPE), x.has_type_envelope("T"), x.check_type(&known_values::SEED_TYPE).is_ok(), x.check_type_envelope("T").is_ok()); let _ = (e.types(), e.get_type().is_ok(), e.has_type(&known_values::SEED_TYPE), e.has_type_envelope(arg.clone())); }),
         27 => o!("attachments", { let _ = e.attachments().is_ok(); let _ = e.attachments_with_vendor_and_conforms_to(Some("vendor"), Some("conf")).is_ok(); let _ = e.attachment_with_vendor_and_conforms_to(Some("vendor"), None).is_ok(); let _ = e.attachment_payload().is_ok(); let _ = e.attachment_vendor().is_ok(); let _ = e.attachment_conforms_to().is_ok(); let _ = e.validate_attachment().is_ok(); let _ = Attachments::try_from_envelope(e).is_ok(); }),
         28 => o!("add_attachment", e.add_attachment(arg.clone(), "v", Some("c"))),
